@@ -65,6 +65,14 @@ type ShWithIface struct {
 	ShIface
 	W2 *string `cbor:"51,keyasint,omitempty" json:"w2,omitempty"`
 }
+
+// the same shape under another Go type: values of this type are first seen with the interface holding nil, of
+// ShWithIface with the interface holding a struct (anything remembered per type must not depend on that order)
+type ShWithIfaceB struct {
+	W1 *int `cbor:"50,keyasint" json:"w1"`
+	ShIface
+	W2 *string `cbor:"51,keyasint,omitempty" json:"w2,omitempty"`
+}
 type ShAllOptional struct {
 	P *int    `cbor:"1,keyasint,omitempty" json:"p,omitempty"`
 	Q *string `cbor:"2,keyasint,omitempty" json:"q,omitempty"`
@@ -486,6 +494,9 @@ func init() {
 			{"top", func() any { return &ShTop{} }},
 			{"iface-struct", func() any { return &ShWithIface{ShIface: &ShLeaf{}} }},
 			{"iface-nil", func() any { return &ShWithIface{} }},
+			{"ifaceB-nil", func() any { return &ShWithIfaceB{} }},
+			{"ifaceB-struct", func() any { return &ShWithIfaceB{ShIface: &ShLeaf{}} }},
+			{"ifaceB-nil-again", func() any { return &ShWithIfaceB{} }},
 			{"alloptional", func() any { return &ShAllOptional{} }},
 			{"dup", func() any { return &ShDup{} }},
 		}
